@@ -220,6 +220,8 @@ def build(std):
                      program=T.index[program], program_unit=T.index[T.program_unit],
                      main0=T.index[T.main0], cpp=[T.index[c] for c in cppcls])
     T.variants = probe_variants(std)
+    # the end classes that raise on a label mismatch (probe 5): End_Do_Stmt and its subclasses, or none
+    T.hooks["stray_enddo"] = closure((di.End_Do_Stmt,)) if T.variants["stray_enddo_raises"] else []
     return T
 
 
@@ -283,6 +285,19 @@ def probe_variants(std):
         v["exits"] = False
     except SystemExit:
         v["exits"] = True
+    SYMBOL_TABLES.clear()
+    # (5) a labelled DO construct meeting an END DO without its label: kept as content (old) or FortranSyntaxError?
+    ParserFactory().create(std=std)
+    rd = FortranStringReader("do 140 i = 1, 2\nx = 1\nend do\n140 continue\n")
+    cls = F8.Block_Label_Do_Construct if std == "f2008" and hasattr(F8, "Block_Label_Do_Construct") \
+        else F3.Block_Label_Do_Construct
+    try:
+        r = cls.match(rd)
+        v["stray_enddo_raises"] = False
+        if r is None:
+            raise TranslateError("probe: labelled DO with a stray END DO neither matched nor raised")
+    except utils.FortranSyntaxError:
+        v["stray_enddo_raises"] = True
     SYMBOL_TABLES.clear()
     return v
 
@@ -349,10 +364,10 @@ def emit_table(T, modname):
     w("].")
     w("")
     sp, h, v = T.special, T.hooks, T.variants
-    w("Definition tbl : table := mkTable entries %s %s %s %s %s %s %s %s %s %s %s 0%%N %s %s %s %s." % (
+    w("Definition tbl : table := mkTable entries %s %s %s %s %s %s %s %s %s %s %s %s 0%%N %s %s %s %s." % (
         _n(sp["comment"]), _n(sp["directive"]), _n(sp["include"]), _n(sp["program_unit"]),
         _n(sp["main0"]), _l(sp["cpp"]), _l(h["elseif"]), _l(h["else_endif"]), _l(h["maskedelse"]),
-        _l(h["else_endwhere"]), _l(h["enddo_continue"]), _b(v["shared_restores"]),
+        _l(h["else_endwhere"]), _l(h["enddo_continue"]), _l(h["stray_enddo"]), _b(v["shared_restores"]),
         _b(v["main0_guarded"]), _b(v["cleanup_all"]), _b(v["exits"])))
     w("Definition c_program : cls := %s." % _n(sp["program"]))
     w("")
@@ -394,10 +409,10 @@ def table_protocol(T):
             lines.append("S " + L(T.index[x] for x in payload))
         elif k == "loop":
             lines.append("P %d" % T.index[payload])
-    lines.append("X %d %d %d %d %d %d | %s | %s | %s | %s | %s | %s" % (
+    lines.append("X %d %d %d %d %d %d | %s | %s | %s | %s | %s | %s | %s" % (
         sp["comment"], sp["directive"], sp["include"], sp["program_unit"], sp["main0"], sp["program"],
         L(sp["cpp"]), L(h["elseif"]), L(h["else_endif"]), L(h["maskedelse"]), L(h["else_endwhere"]),
-        L(h["enddo_continue"])))
+        L(h["enddo_continue"]), L(h["stray_enddo"])))
     lines.append("V %d %d %d %d" % (v["shared_restores"], v["main0_guarded"], v["cleanup_all"], v["exits"]))
     return lines
 
